@@ -246,6 +246,7 @@ func (st *State) step(th *Thread) {
 		panic("fell off block in " + fr.fn.String())
 	}
 	ins := fr.block.Instrs[fr.ip]
+	th.started = true
 	st.nInstr++
 	if st.nInstr > st.p.Cfg.MaxInstr {
 		st.abort(abBound, fmt.Sprintf("instruction budget %d exceeded", st.p.Cfg.MaxInstr))
